@@ -31,6 +31,9 @@ type H struct {
 	Dir   string
 	Index string
 	Store *tsdb.Store
+
+	held     *Gate      // a cache snapshot held between "written" and "installed"
+	heldDone chan error // its WriteSnapshot call
 }
 
 const DB, RP = "db0", "rp0"
@@ -127,6 +130,7 @@ func (h *H) Engine() *tsm1.Engine {
 }
 
 func (h *H) Close() {
+	h.SnapRelease() // never leave a held snapshot behind (the shrinker may drop the release op)
 	if h.Store != nil {
 		h.Store.Close()
 		h.Store = nil
@@ -688,6 +692,45 @@ func (h *H) disarm(point string) {
 	gateMu.Unlock()
 }
 
+// SnapHold starts a cache snapshot and holds it after its file is written, before it is
+// installed; SnapRelease lets it finish.
+func (h *H) SnapHold() string {
+	if h.held != nil {
+		return "bad-op"
+	}
+	e := h.Engine()
+	if e == nil {
+		return "err:no_engine"
+	}
+	g := h.Arm("snapshot.written")
+	done := make(chan error, 1)
+	go func() { done <- e.WriteSnapshot() }()
+	select {
+	case <-g.Reached:
+		h.held, h.heldDone = g, done
+		return "ok"
+	case err := <-done:
+		h.disarm("snapshot.written")
+		if err != nil {
+			return "err:snapshot:" + strings.ReplaceAll(err.Error(), " ", "_")
+		}
+		return "ok" // nothing to snapshot
+	}
+}
+
+func (h *H) SnapRelease() string {
+	if h.held == nil {
+		return "ok"
+	}
+	close(h.held.Release)
+	err := <-h.heldDone
+	h.held, h.heldDone = nil, nil
+	if err != nil {
+		return "err:snapshot:" + strings.ReplaceAll(err.Error(), " ", "_")
+	}
+	return "ok"
+}
+
 // SnapDelete runs a delete while a cache snapshot is in flight: the snapshot has been taken
 // and its file written, but not yet installed (the window the delete path leaves open on
 // purpose, see Engine.DeleteSeriesRangeWithPredicate).
@@ -741,6 +784,9 @@ func (h *H) Step(op string) (out string) {
 	}()
 	f := strings.Fields(op)
 	i64 := func(s string) int64 { v, _ := strconv.ParseInt(s, 10, 64); return v }
+	if h.held != nil && f[0] != "w" && f[0] != "wr" && f[0] != "read" && f[0] != "snaprelease" {
+		h.SnapRelease() // only writes and reads run against a held snapshot
+	}
 	switch f[0] {
 	case "w":
 		return h.Write(f[1])
@@ -774,6 +820,10 @@ func (h *H) Step(op string) (out string) {
 		}
 	case "snap":
 		return h.Snapshot()
+	case "snaphold":
+		return h.SnapHold()
+	case "snaprelease":
+		return h.SnapRelease()
 	case "compact":
 		return h.Compact(f[1], int(i64(f[2])), int(i64(f[3])))
 	case "reopen":
